@@ -114,7 +114,22 @@ fn run_case(cfg: RtCfg, prog: &Arc<Program>, lim: &Lim, via: Via, base: &[(u32, 
         _ => unreachable!(),
     });
     let log = b.log.clone();
-    let r = quiet_catch(move || b.rt.run()).map_err(|m| format!("run panicked: {m}"))?;
+    // every second run whose limit admits at least one event is not started with run() but by hand:
+    // start, one counted step, dispatch_all, finish - the builder's limit governs the rest all the same
+    let admits_one = base.first().is_some_and(|e| !lim.stops(1, e.1)) && !matches!(lim, Lim::None);
+    let stepped = via == Via::Limit && admits_one && STEPPED.with(|c| c.replace(c.get() + 1)) % 2 == 1;
+    let r = quiet_catch(move || {
+        let mut rt = b.rt;
+        if stepped {
+            rt.start();
+            rt.dispatch_n_events(1);
+            rt.dispatch_all();
+            rt.finish()
+        } else {
+            rt.run()
+        }
+    })
+    .map_err(|m| format!("run panicked: {m}"))?;
     vcheck::rtlab::END_ADDS.with(|e| e.borrow_mut().clear());
     let (_, end, prof) = r.map_err(|e| format!("run returned an error: {e:?}"))?;
     let got = log.lock().unwrap().clone();
@@ -173,6 +188,9 @@ fn run_case(cfg: RtCfg, prog: &Arc<Program>, lim: &Lim, via: Via, base: &[(u32, 
     Ok(vcheck::fp(&(k, &rem_got)))
 }
 
+thread_local! {
+    static STEPPED: std::cell::Cell<u64> = const { std::cell::Cell::new(0) };
+}
 /// delays of the two events every limited run's application schedules in at_sim_end
 const END_DELAYS: [u64; 2] = [0, 3];
 
@@ -254,7 +272,7 @@ impl Property for C11 {
         format!(
             "every event program of 1..={} events (delays {{0,1,t,Y+1}}) x start in {{0,5}} x (n,t) in {:?} x every limit: None, EventCount(0..=m+1), SimTime(T) for T = every timestamp and +-1ns, \
              And/Or of every (count, time) pair in both operand orders and via Builder::max_itr/max_time chains in both orders{}, and every ordered pair of plain bounds (count/count, time/time, mixed) added one after the other through max_itr/max_time and through limit(..).limit(..); \
-             oracle: own evaluator applied to the log L of the real unlimited run: dispatched == longest admitted prefix of L, remaining == undelivered events with timestamps plus the two events the application schedules in its at_sim_end, end time, event_count; \
+             every second run whose limit admits an event is driven by hand (start, one counted step, dispatch_all, finish) instead of run(); oracle: own evaluator applied to the log L of the real unlimited run: dispatched == longest admitted prefix of L, remaining == undelivered events with timestamps plus the two events the application schedules in its at_sim_end, end time, event_count; \
              non-trivial = the limit cuts the run strictly inside (0 < k < |L|)",
             tier.pick(4, 5),
             CFGS,
